@@ -122,9 +122,9 @@ def run(chk: Check):
 
     # ---- _read ----------------------------------------------------------------------------------
     ctx = chk.func(REL, "VDI._read")
-    loops = loops_of(ctx)
+    loops = loops_of(ctx) or list(ctx.loops)
     if not loops:
-        raise AnalysisError("ANCHOR-VANISHED VDI._read has no while loop")
+        raise AnalysisError("ANCHOR-VANISHED VDI._read has no loop")
     loop = loops[0]
     sim = _read_by_evaluation(chk, ctx, loop, F("block_size"), F("offset_data"), m, R.self_attr(vk, "fh"), R.self_attr(vk, "parent"))
     carried = loop_carried(chk, ctx, loop)
